@@ -469,6 +469,8 @@ func (fsrv *FileServer) ServeHTTP(w http.ResponseWriter, r *http.Request, next c
 		if etag == "" && fsrv.EtagFileExtensions != nil {
 			etag, err = fsrv.getEtagFromFile(fileSystem, compressedFilename, filesToHide)
 			if err != nil {
+				// the sidecar is not what gets sent after all
+				respHeader.Del("Content-Encoding")
 				return err
 			}
 		}
@@ -519,6 +521,8 @@ func (fsrv *FileServer) ServeHTTP(w http.ResponseWriter, r *http.Request, next c
 		// to repeat the error; just continue because we're probably
 		// trying to write an error page response (see issue #5703)
 		if _, ok := r.Context().Value(caddyhttp.ErrorCtxKey).(error); !ok {
+			// the error response is not the (possibly precompressed) file
+			respHeader.Del("Content-Encoding")
 			respHeader.Add("Allow", "GET, HEAD")
 			return caddyhttp.Error(http.StatusMethodNotAllowed, nil)
 		}
